@@ -28,40 +28,6 @@ NumArg(v)  == NumLeft(v)
 
 Arg(args, i, dflt) == IF Len(args) >= i THEN args[i] ELSE dflt
 
-\* ---- decimal numbers: mantissa / 10^scale, exact (floats written with a few digits) ------------
-\* A float operand makes the arithmetic filters compute in exact decimal arithmetic
-\* (filters/math.py goes through decimal.Decimal(str(x))) and return a float.
-Dec(m, e) == [t |-> "dec", dm |-> m, de |-> e]
-RECURSIVE Pow10(_)
-Pow10(k) == IF k <= 0 THEN 1 ELSE 10 * Pow10(k - 1)
-RECURSIVE NormDec(_)
-NormDec(d) == IF d.de > 0 /\ d.dm % 10 = 0 THEN NormDec(Dec(d.dm \div 10, d.de - 1)) ELSE d
-MaxE(a, b) == IF a.de >= b.de THEN a.de ELSE b.de
-UpScale(a, e) == a.dm * Pow10(e - a.de)                     \* mantissa at scale e >= a.de
-DPlus(a, b) == NormDec(Dec(UpScale(a, MaxE(a, b)) + UpScale(b, MaxE(a, b)), MaxE(a, b)))
-DMinus(a, b) == NormDec(Dec(UpScale(a, MaxE(a, b)) - UpScale(b, MaxE(a, b)), MaxE(a, b)))
-DTimes(a, b) == NormDec(Dec(a.dm * b.dm, a.de + b.de))
-DLt(a, b) == UpScale(a, MaxE(a, b)) < UpScale(b, MaxE(a, b))
-DEq(a, b) == UpScale(a, MaxE(a, b)) = UpScale(b, MaxE(a, b))
-DIsZero(a) == a.dm = 0
-DFloor(a) == a.dm \div Pow10(a.de)                      \* TLA+ \div floors
-DCeil(a) == -((-a.dm) \div Pow10(a.de))
-\* a / b as an exact decimal with at most 4 fractional digits, if it has one
-DivScale == 4
-\* (TLC's % and \div want a positive divisor: the sign of b is moved to a)
-QNum(a, b) == LET e == MaxE(a, b) IN (IF UpScale(b, e) < 0 THEN -UpScale(a, e) ELSE UpScale(a, e)) * Pow10(DivScale)
-QDen(a, b) == LET e == MaxE(a, b) IN IF UpScale(b, e) < 0 THEN -UpScale(b, e) ELSE UpScale(b, e)
-DQuotExact(a, b) == QNum(a, b) % QDen(a, b) = 0
-DQuot(a, b) == NormDec(Dec(QNum(a, b) \div QDen(a, b), DivScale))
-\* floored modulo, as for integers: a - b * floor(a / b)
-DMod(a, b) == LET e == MaxE(a, b) IN NormDec(Dec(UpScale(a, e) % UpScale(b, e), e))
-\* rounding to k digits, ties excluded by the caller
-DRoundable(a, k) == a.de <= k \/ (a.dm % Pow10(a.de - k)) * 2 # Pow10(a.de - k)
-DRound(a, k) == IF a.de <= k THEN a
-                ELSE LET cut == Pow10(a.de - k)
-                         lo == a.dm \div cut IN
-                     NormDec(Dec(IF (a.dm % cut) * 2 > cut THEN lo + 1 ELSE lo, k))
-
 IsDecStr(s) == LET t == IF s # "" /\ Ch(s, 1) \in {"-", "+"} THEN SubSeq(s, 2, Len(s)) ELSE s
                    i == Find(t, ".") IN
                i > 1 /\ i < Len(t) /\ IsDigits(SubSeq(t, 1, i - 1)) /\ IsDigits(SubSeq(t, i + 1, Len(t)))
@@ -76,15 +42,7 @@ DecOf(v) == CASE v.t = "dec" -> v
               [] v.t = "str" /\ IsIntStr(Strip(v.v)) -> Dec(IntOfStr(Strip(v.v)), 0)
               [] v.t = "str" /\ IsDecStr(Strip(v.v)) -> DecOfStr(Strip(v.v))
               [] OTHER -> Dec(0, 0)
-\* the text of a float (Python repr for these magnitudes): at least one fractional digit
-DecText(d0) ==
-  LET d == NormDec(d0)
-      neg == d.dm < 0
-      digits == ToString(IF neg THEN -d.dm ELSE d.dm)
-      padded == IF Len(digits) <= d.de THEN SubSeq("0000000000", 1, d.de - Len(digits) + 1) \o digits ELSE digits
-      ip == SubSeq(padded, 1, Len(padded) - d.de)
-      fp == SubSeq(padded, Len(padded) - d.de + 1, Len(padded))
-  IN (IF neg THEN "-" ELSE "") \o ip \o "." \o (IF fp = "" THEN "0" ELSE fp)
+
 
 \* ---- sequence coercion of the left operand (sequence_filter) --------------
 RECURSIVE Flatten(_, _)
